@@ -196,6 +196,11 @@ unsafe impl Allocator for VAStateful {
     }
     unsafe fn deallocate(&self, ptr: NonNull<u8>, layout: Layout) {
         unsafe { va_deallocate(ptr, layout) }
+        // C05 "a returned block is never read or written afterwards": a stateful allocator may look at its own state
+        // AFTER it has released the block - the handle it was called through must not live inside that block (a copy
+        // of the allocator sits in every chunk header). The harnesses only ever create `VAStateful { id: 0 }`.
+        let id = self.id;
+        check!(id == 0, "C05: the allocator handle passed to deallocate was clobbered by the release (it lived inside the released block)");
     }
 }
 
